@@ -778,6 +778,9 @@ def schema_problems(schema):
                 out.append(where + ": oneof member that is not OPTIONAL")
             if f["kind"] == "other":
                 out.append(where + ": field type %s unknown to the model" % f["tname"])
+            if f["container"] == "none" and not (f["default_kind"] == "required" or
+                                                 (f["default_kind"] == "str" and f["kind"] == "str")):
+                out.append(where + ": constructor default is not a value of the field's type")
             if f["oneof"] and ("which_" + f["oneof"] in names or "_value_" + f["oneof"] in names):
                 out.append(where + ": field named like a oneof proxy")
     return out
